@@ -62,7 +62,7 @@ class Sched:
         self.threads = []
         self.by_ident = {}
         self.h = hashlib.sha256(); self.hs = hashlib.sha256()
-        self.nev = 0; self.steps = 0; self.switches = 0; self.preempt_switches = 0
+        self.nev = 0; self.steps = 0; self.switches = 0; self.preempt_switches = 0; self.jumps = 0
         self.failed = None          # engine verdict (Hang/Deadlock)
         self.thread_errors = []     # (thread name, repr, traceback tail) for exceptions escaping sim threads
         self.done = _alloc(); self.done.acquire()
@@ -180,6 +180,21 @@ class Sched:
                     if t.state == "blocked":
                         t.timed_out = True
                     t.state = "runnable"; t.wake_at = None
+        # "slow node": a runnable thread may stay descheduled while timers of other
+        # threads expire (in reality a pre-empted thread can lose the CPU for longer
+        # than a 10 ms poll) -- let the clock jump although something is runnable
+        pj = self.strategy.get("p_jump", 0.0)
+        if pj or self.replaying:
+            timed = [t for t in self.threads if t.state in ("sleeping", "blocked") and t.wake_at is not None]
+            if timed and self.choose(2, "jump", lambda r: 1 if r.random() < pj else 0):
+                self.now = max(self.now, min(t.wake_at for t in timed))
+                self.jumps += 1
+                for t in timed:
+                    if t.wake_at <= self.now:
+                        if t.state == "blocked":
+                            t.timed_out = True
+                        t.state = "runnable"; t.wake_at = None
+                run = [t for t in self.threads if t.state == "runnable"]
         if len(run) == 1:
             return run[0]
         if me in run:
@@ -596,13 +611,14 @@ def run_sim(seed, main_fn, decisions=None, strategy=None, trace_files=(), max_st
 STRATEGIES = [
     {"kind": "random", "p_stay": 0.0, "gap": 0},
     {"kind": "random", "p_stay": 0.5, "gap": 3},
-    {"kind": "random", "p_stay": 0.8, "gap": 4},
+    {"kind": "random", "p_stay": 0.8, "gap": 4, "p_jump": 0.05},
     {"kind": "random", "p_stay": 0.9, "gap": 2},
-    {"kind": "random", "p_stay": 0.5, "gap": 5},
+    {"kind": "random", "p_stay": 0.5, "gap": 5, "p_jump": 0.02},
     {"kind": "random", "p_stay": 0.7, "gap": 6, "opcodes": True},
+    {"kind": "random", "p_stay": 0.6, "gap": 7, "p_jump": 0.1},
     {"kind": "pct", "depth": 1, "gap": 0, "horizon": 1500},
     {"kind": "pct", "depth": 2, "gap": 3, "horizon": 3000},
-    {"kind": "pct", "depth": 3, "gap": 4, "horizon": 6000},
+    {"kind": "pct", "depth": 3, "gap": 4, "horizon": 6000, "p_jump": 0.03},
 ]
 
 
